@@ -282,3 +282,7 @@ func JSONText(b []byte) (string, bool) {
 // PreemptBudget allows the symbolic scheduler up to n preemptions at atomic operations of
 // spawned goroutines (no native counterpart: native runs use stress instead).
 func PreemptBudget(n int) {}
+
+// PreemptPoint marks a place where a modelled blocking operation (e.g. a network write)
+// may let another goroutine run (symbolic scheduler only).
+func PreemptPoint() {}
